@@ -349,6 +349,95 @@ mut('C07', 'close_skips_compaction_result', JD, """	if err := s.Compact(s.writer
 	}
 	s.cache.Invalidate(s.writer.target)""", """	s.cache.Invalidate(s.writer.target)""")
 
+# ---- C13 / C19 loader
+BU = 'internal/dag/builder.go'
+PA = 'internal/dag/parser.go'
+AS = 'internal/dag/assert.go'
+LO = 'internal/dag/loader.go'
+mut('C13', 'type_assertion_without_comma_ok', BU, """				executorConfig, ok := v.(map[any]any)
+				if !ok {
+					return errExecutorConfigValueMustBeMap
+				}""", """				executorConfig := v.(map[any]any)""")
+mut('C13', 'step_name_check_dropped', AS, """	if def.Name == "" {
+		return errStepNameRequired
+	}
+""", "")
+mut('C13', 'schedule_parse_error_ignored', PA, """		parsed, err := cronParser.Parse(v)
+		if err != nil {
+			return nil, fmt.Errorf("%w: %s", errInvalidSchedule, err)
+		}
+		ret = append(ret, Schedule{Expression: v, Parsed: parsed})""", """		parsed, _ := cronParser.Parse(v)
+		ret = append(ret, Schedule{Expression: v, Parsed: parsed})""")
+mut('C13', 'signal_name_not_validated', PA, """		sig := unix.SignalNum(sigDef)
+		if sig == 0 {
+			return fmt.Errorf("%w: %s", errInvalidSignal, sigDef)
+		}
+		step.SignalOnStop = sigDef""", """		step.SignalOnStop = sigDef""")
+mut('C13', 'nothing_to_execute_check_dropped', BU, """	if step.Command == "" && step.ExecutorConfig.Type == "" &&
+		step.SubWorkflow == nil {
+		return nil, errStepCommandOrCallRequired
+	}
+""", "")
+mut('C13', 'null_entries_not_rejected', BU, """	if err := assertNoNullEntries(def); err != nil {
+		return nil, err
+	}
+""", "")
+mut('C13', 'unknown_schedule_key_falls_through', PA, """		default:
+			return fmt.Errorf("%w: unknown schedule key %q", errInvalidSchedule, key)
+
+		}""", """		}""")
+mut('C13', 'builder_errors_dropped', BU, """	if len(b.errs) > 0 {
+		return nil, &b.errs
+	}
+""", "")
+mut('C13', 'maps_in_lists_not_converted', BU, """			case []any:
+				if err := convertList(vv, &queue); err != nil {
+					return err
+				}
+
+			}
+		}
+		queue = queue[1:]""", """			}
+		}
+		queue = queue[1:]""")
+mut('C19', 'env_evaluated_when_listing', BU, """		if !opts.noEval {
+			// Evaluate the value of the environment variable.""", """		if !opts.metadataOnly {
+			// Evaluate the value of the environment variable.""")
+mut('C19', 'validation_loads_with_evaluation', LO, """func LoadYAML(data []byte) (*DAG, error) {
+	return loadYAML(data, buildOpts{
+		metadataOnly: false,
+		noEval:       true,
+	})""", """func LoadYAML(data []byte) (*DAG, error) {
+	return loadYAML(data, buildOpts{
+		metadataOnly: false,
+		noEval:       false,
+	})""")
+mut('C19', 'logdir_command_runs_again', BU, """	if !b.opts.noEval {
+		// Command substitution is evaluated only when the DAG is loaded
+		// for execution, not for listing, viewing or validating it.
+		logDir, err = substituteCommands(logDir)
+		if err != nil {
+			return err
+		}
+	}""", """	logDir, err = substituteCommands(logDir)
+	if err != nil {
+		return err
+	}""")
+mut('C19', 'step_dir_command_substitution_added', BU, """	step := &Step{
+		Name:           def.Name,""", """	if dir, err := substituteCommands(def.Dir); err == nil {
+		def.Dir = dir
+	}
+	step := &Step{
+		Name:           def.Name,""")
+mut('C19', 'params_always_evaluated', BU, """	b.dag.Params, envs, err = parseParams(params, !b.opts.noEval, b.opts)""", """	b.dag.Params, envs, err = parseParams(params, true, b.opts)""")
+mut('C19', 'positional_params_exported_again', PA, """		if !options.noEval {
+			if err = os.Setenv(strconv.Itoa(i+1), strParam); err != nil {
+				return
+			}
+		}""", """		if err = os.Setenv(strconv.Itoa(i+1), strParam); err != nil {
+			return
+		}""")
+
 # ---- C09 daemon
 D = 'internal/scheduler/scheduler.go'
 J = 'internal/scheduler/job.go'
